@@ -29,6 +29,13 @@ pub struct Mon {
     hit_size: UnsafeCell<[u32; MAX_HITS]>,
     bytes_requested: Cell<u64>,
     largest_request: Cell<u64>,
+    /// allocation events of this thread are scheduling points of the controlled scheduler
+    sched_points: Cell<bool>,
+    in_hook: Cell<bool>,
+    /// optional counter outside the thread (survives the thread): bumped on every hit and on every inspected free, so
+    /// that frees performed while the thread shuts down (thread-local destructors) are still accounted for
+    hit_sink: Cell<*const std::sync::atomic::AtomicU64>,
+    free_sink: Cell<*const std::sync::atomic::AtomicU64>,
 }
 
 thread_local! {
@@ -46,10 +53,47 @@ thread_local! {
         hit_size: UnsafeCell::new([0u32; MAX_HITS]),
         bytes_requested: Cell::new(0),
         largest_request: Cell::new(0),
+        sched_points: Cell::new(false),
+        in_hook: Cell::new(false),
+        hit_sink: Cell::new(std::ptr::null()),
+        free_sink: Cell::new(std::ptr::null()),
     } };
 }
 
 pub struct MonAlloc;
+
+static ALLOC_HOOK: std::sync::OnceLock<fn()> = std::sync::OnceLock::new();
+
+/// Install the function called on every allocation of a thread that switched allocation scheduling points on
+pub fn set_alloc_hook(f: fn()) -> bool {
+    ALLOC_HOOK.set(f).is_ok()
+}
+
+/// Make (or stop making) this thread's allocations scheduling points
+pub fn set_sched_points(on: bool) {
+    let _ = MON.try_with(|m| m.sched_points.set(on));
+}
+
+/// Run `f` with allocation scheduling points suppressed (scheduler internals allocate too)
+pub fn without_sched_points<T>(f: impl FnOnce() -> T) -> T {
+    let was = MON.try_with(|m| m.in_hook.replace(true)).unwrap_or(true);
+    let r = f();
+    let _ = MON.try_with(|m| m.in_hook.set(was));
+    r
+}
+
+#[inline]
+fn alloc_point() {
+    let _ = MON.try_with(|m| {
+        if m.sched_points.get() && !m.in_hook.get() {
+            if let Some(h) = ALLOC_HOOK.get() {
+                m.in_hook.set(true);
+                h();
+                m.in_hook.set(false);
+            }
+        }
+    });
+}
 
 #[inline]
 fn find(hay: &[u8], needle: &[u8]) -> bool {
@@ -75,6 +119,10 @@ unsafe fn scan(ptr: *mut u8, size: usize) {
         }
         m.frees_inspected.set(m.frees_inspected.get() + 1);
         m.bytes_inspected.set(m.bytes_inspected.get() + size as u64);
+        let fs = m.free_sink.get();
+        if !fs.is_null() {
+            (*fs).fetch_add(1, std::sync::atomic::Ordering::SeqCst);
+        }
         let hay = std::slice::from_raw_parts(ptr as *const u8, size);
         let pats = &*m.patterns.get();
         let lens = &*m.pattern_len.get();
@@ -89,6 +137,10 @@ unsafe fn scan(ptr: *mut u8, size: usize) {
                     hs[h] = size as u32;
                 }
                 m.hits.set(h + 1);
+                let hs = m.hit_sink.get();
+                if !hs.is_null() {
+                    (*hs).fetch_add(1, std::sync::atomic::Ordering::SeqCst);
+                }
             }
         }
     });
@@ -112,6 +164,7 @@ unsafe impl GlobalAlloc for MonAlloc {
         if !p.is_null() && MON.try_with(|m| m.hygiene.get()).unwrap_or(false) {
             std::ptr::write_bytes(p, 0xCD, layout.size());
         }
+        alloc_point();
         p
     }
 
@@ -175,6 +228,15 @@ pub fn set_patterns(pats: &[Vec<u8>]) {
 /// Switch allocation hygiene on/off for this thread (see `Mon::hygiene`)
 pub fn hygiene(on: bool) {
     MON.with(|m| m.hygiene.set(on));
+}
+
+/// Route hit / inspected-free counts of this thread to counters that outlive it (the caller keeps them alive until the
+/// thread has been joined)
+pub fn set_sinks(hits: *const std::sync::atomic::AtomicU64, frees: *const std::sync::atomic::AtomicU64) {
+    MON.with(|m| {
+        m.hit_sink.set(hits);
+        m.free_sink.set(frees);
+    });
 }
 
 pub fn arm() {
